@@ -202,7 +202,10 @@ pub fn c14_tree(ctx: &mut Ctx, t: &Term, pres: &[Vec<Pre>]) {
       }
       // every observer answers what a fresh value answers (hence also: the same each time)
       let oa = observe_all(a.as_ref(), &text);
-      if oa != reference {
+      // answers are compared as text / bytes / size / per-position attribution: a CachedSource
+      // legitimately re-encodes its map once a stream filled the cache, so raw SourceMap values
+      // are only compared on values without observer history
+      if oa.answers != reference.answers || (pa.is_empty() && oa.maps != reference.maps) {
         let which = oa.answers.iter().zip(&reference.answers).position(|(x, y)| x != y);
         ctx.violation(
           "observer_answer_depends_on_history",
@@ -255,7 +258,8 @@ pub fn c14_neighbours(ctx: &mut Ctx, t: &Term, e: &Term, kind: &str, pres: &[Vec
         if hash_dyn(a.as_ref()) != hash_dyn(b.as_ref()) {
           ctx.violation("equal_but_hash_differs", kind.to_string(), None, case, t.size(), format!("edit {kind}: values compare equal but hash differently"));
         }
-        if ta != tb || observe_all(a.as_ref(), &ta) != observe_all(b.as_ref(), &tb) {
+        let (oa, ob) = (observe_all(a.as_ref(), &ta), observe_all(b.as_ref(), &tb));
+        if ta != tb || oa.answers != ob.answers || (pa.is_empty() && pb.is_empty() && oa.maps != ob.maps) {
           ctx.violation("equal_but_observably_different", kind.to_string(), None, case, t.size(), format!("edit {kind}: values compare equal but observers answer differently"));
         }
       } else {
@@ -318,7 +322,7 @@ pub fn c14_staged(ctx: &mut Ctx, t: &Term) {
         ctx.violation("equal_but_hash_differs", "staged".into(), None, case, t.size(), format!("built with {pre:?} after {gap} replacements: hash differs from the plainly built twin"));
       }
       let ob = observe_all(b.as_ref(), &text);
-      if ob != reference {
+      if ob.answers != reference.answers {
         let which = ob.answers.iter().zip(&reference.answers).position(|(x, y)| x != y);
         ctx.violation(
           "equal_but_observably_different",
